@@ -637,6 +637,29 @@ impl<W: Write> Ctx<W> {
                 let text = st.get("text").and_then(unbytes).unwrap_or_default();
                 self.vparse(&text);
             }
+            "vbuilt" => {
+                // C12 for versions built from canonical identifiers (not through the parser)
+                let v = match st.get("v").and_then(ver_from_json) {
+                    Some(v) => v,
+                    None => return self.skip(c),
+                };
+                let v2 = v.clone();
+                let more = self.call("version_roundtrip", move || {
+                    let p = v2.to_string();
+                    let re = Version::parse(&p);
+                    let p2 = re.as_ref().map(|x| x.to_string()).unwrap_or_default();
+                    let js = serde_json::to_string(&v2).unwrap_or_default();
+                    let jb: Result<Version, _> = serde_json::from_str(&js);
+                    let jb = match jb {
+                        Ok(x) => json!({"out":"ok","val":ver_to_json(&x)}),
+                        Err(_) => json!({"out":"err"}),
+                    };
+                    (p, vres_json(&re), p2, js, jb)
+                });
+                if let Some((p, re, p2, js, jb)) = more {
+                    self.emit(json!({"ev":"vbuilt","val":ver_to_json(&v),"print":bytes(&p),"re":re,"print2":bytes(&p2),"json":bytes(&js),"jback":jb}));
+                }
+            }
             "vcmp" => {
                 let (a, b) = match (st.get("a").and_then(ver_from_json), st.get("b").and_then(ver_from_json)) {
                     (Some(a), Some(b)) => (a, b),
@@ -708,7 +731,7 @@ impl<W: Write> Ctx<W> {
     pub fn rparse(&mut self, dst: usize, text: &str, ast: Option<Value>, vs: Option<&Value>) {
         let t0 = Instant::now();
         let r = self.call("Range::parse", || Range::parse(text));
-        let us = t0.elapsed().as_micros().min(2_000_000_000) as u64;
+        let mut us = t0.elapsed().as_micros().min(2_000_000_000) as u64;
         let r = match r {
             Some(r) => r,
             None => {
@@ -716,6 +739,15 @@ impl<W: Write> Ctx<W> {
                 return;
             }
         };
+        // the time clause is about the parser, not about the scheduler: a slow call is re-measured (minimum of three)
+        for _ in 0..2 {
+            if us <= 10_000 {
+                break;
+            }
+            let t1 = Instant::now();
+            let _ = self.call("Range::parse", || Range::parse(text).is_ok());
+            us = us.min(t1.elapsed().as_micros().min(2_000_000_000) as u64);
+        }
         let mut ev = Map::new();
         ev.insert("ev".into(), json!("rparse"));
         ev.insert("dst".into(), json!(dst));
@@ -766,11 +798,19 @@ impl<W: Write> Ctx<W> {
     pub fn vparse(&mut self, text: &str) {
         let t0 = Instant::now();
         let r = self.call("Version::parse", || Version::parse(text));
-        let us = t0.elapsed().as_micros().min(2_000_000_000) as u64;
+        let mut us = t0.elapsed().as_micros().min(2_000_000_000) as u64;
         let r = match r {
             Some(r) => r,
             None => return,
         };
+        for _ in 0..2 {
+            if us <= 10_000 {
+                break;
+            }
+            let t1 = Instant::now();
+            let _ = self.call("Version::parse", || Version::parse(text).is_ok());
+            us = us.min(t1.elapsed().as_micros().min(2_000_000_000) as u64);
+        }
         let mut ev = Map::new();
         ev.insert("ev".into(), json!("vparse"));
         ev.insert("text".into(), bytes(text));
@@ -979,11 +1019,11 @@ impl<W: Write> Ctx<W> {
         let n0 = st.get("n").and_then(|x| x.as_u64()).unwrap_or(16384) as usize;
         let mut sizes = Vec::new();
         let mut times = Vec::new();
-        for k in 0..4 {
+        for k in 0..5 {
             let target = n0 << k;
             let text = unit.repeat((target / unit.len().max(1)).max(1));
             let mut best = u64::MAX;
-            for _ in 0..3 {
+            for _rep in 0..3 {
                 let t0 = Instant::now();
                 let t = text.clone();
                 let p = parser.clone();
@@ -998,9 +1038,15 @@ impl<W: Write> Ctx<W> {
                     return;
                 }
                 best = best.min(t0.elapsed().as_micros().min(2_000_000_000) as u64);
+                if best > 500_000 {
+                    break; // slow already: no need to repeat
+                }
             }
             sizes.push(text.len() as u64);
             times.push(best);
+            if best > 2_000_000 {
+                break; // far beyond any budget: stop the series, what was measured is judged
+            }
         }
         self.emit(json!({"ev":"timing","parser":parser,"unit":bytes(&unit),"n":sizes,"us":times}));
     }
